@@ -45,7 +45,7 @@ def sched_stream(nontrivial=(), quick=(6, 4, 120), thorough=(36, 10, 1000), what
 
 def hammer_stream(quick=(3, 8, 400), thorough=(20, 12, 2500)):
     return {"kind": "hammer", "budget": {"quick": quick, "thorough": thorough}, "nontrivial": [],
-            "what": "free-running parallel stress: 8-12 real threads call plain generated functions (sync global and async, every policy) whose results are already stored, with large values; any body execution or wrong value is a violation for SOME real schedule (the scheduler of the L3 stream serialises threads and cannot contend inside DashMap shards); second phase: callers race with a thread that keeps invalidating the same tagged cache (by tag and conditionally): at the end hits+misses must equal the number of completed calls and misses the number of body executions"}
+            "what": "free-running parallel stress: 8-12 real threads call plain generated functions (sync global and async, every policy) whose results are already stored, with large values; any body execution or wrong value is a violation for SOME real schedule (the scheduler of the L3 stream serialises threads and cannot contend inside DashMap shards); second phase: callers race with a thread that keeps invalidating the same tagged cache (by tag and conditionally): at the end hits+misses must equal the number of completed calls and misses the number of body executions (caches with a ttl are aged past it over and over, so expired-lookup paths race too); third phase: parallel memory-aware stores of values of 0.6 x max_memory: at every quiescent point the estimated total is within max_memory and every stored key has its queue slot"}
 
 def static_stream():
     return {"kind": "static", "nontrivial": [],
@@ -55,6 +55,10 @@ def reg_stream():
     return lines_stream("reg_diff", "reg", ["gen", "{seed}", "{n}"], 3000, 60000,
                         "registry: the REAL InvalidationRegistry (private instance) through arbitrary registration histories (macro-like once-only registrations in any order interleaved with requests; free histories with re-registration under other metadata, replaced callbacks, shared tags/events/dependencies, undeclared requests, clear()) vs Cachelito.Registry.run; per operation the return value and the set of callbacks that really ran",
                         r"c[1-9]\d*:|f1:")
+
+def counters_stream():
+    return {"kind": "static", "what_kind": "counters", "nontrivial": [],
+            "what": "static check of the atomicity assumption on the CURRENT source: every update of CacheStats' hit / miss counters is a single fetch_add (reset stores 0), nobody else writes them"}
 
 def lines_stream(bin_, mode, args, quick, thorough, what, nontrivial_re="."):
     return {"kind": "lines", "bin": bin_, "mode": mode, "args": args, "n": {"quick": quick, "thorough": thorough},
@@ -137,7 +141,7 @@ PROPS = {
         "streams": [core_stream(nontrivial=["memory-store"], what="L1 restricted to nothing: all flavours/policies, memory-aware stores with sizes around max_memory"),
                     lines_stream("mem_diff", "mem", ["{seed}", "{n}"], 60, 600,
                                  "estimator: random values of 85 Rust types (String/Vec with chosen capacities, nested Option/Result/tuple/Box/Arc/Rc, CacheEntry) through the REAL estimate_memory() vs MemEst.estimate; independent footprint walk", r"\|"),
-                    sched_stream(nontrivial=['quiescent-cache-checked'], quick=(6, 4, 80), what="L3: scheduled runs on memory-bounded caches (memory-aware stores racing with each other and with invalidations): at quiescence the estimated total is within max_memory")],
+                    sched_stream(nontrivial=['quiescent-cache-checked'], quick=(6, 4, 80), what="L3: scheduled runs on memory-bounded caches (memory-aware stores racing with each other and with invalidations): at quiescence the estimated total is within max_memory"), hammer_stream()],
         "monitors": ["C05"],
         "rule": "L1: memory-aware stores on the real engines with value sizes around max_memory (exact fit, one byte over, oversize); non-trivial = a memory-aware store with max_memory set. Estimator: one random value per line, distinct lines counted",
         "level_text": "Lean theorems: (engine) after every memory-aware store total size <= max_memory for every history, an oversize value changes nothing but its own key, the memory loop removes exactly the shortest prefix of the policy's victim sequence after which the total fits (nothing when it already fits) and always terminates; (estimator) estimate = inline + owned heap (+ borrowed bytes for &str/&[T]), never below the inline size. Tied to the code per step (engines, full state) and per value (estimator).",
@@ -262,7 +266,7 @@ PROPS = {
     "C15": {
         "lean_modules": ["Cachelito.Props.C15", "Cachelito.Props.C15b", "Cachelito.Props.C15c"],
         "streams": [core_stream(nontrivial=["hit", "expiry"]), macro_stream(nontrivial=["stats-get", "stats-reset", "hit"]),
-                    sched_stream(nontrivial=["quiescent-stats-checked"], quick=(6, 4, 60)), hammer_stream()],
+                    sched_stream(nontrivial=["quiescent-stats-checked"], quick=(6, 4, 60)), hammer_stream(), counters_stream()],
         "monitors": ["C15"],
         "rule": "L1: counters in every state dump; L2: stats_registry::get(name) after every call, get/reset by name incl. unknown names; non-trivial = hit, expiry-as-miss, stats query or reset",
         "level_text": "Lean theorems (sequential): every lookup bumps exactly one counter, hits iff it returned a value (an expired entry is a miss), nothing else touches the counters, hits+misses = number of lookups for every history. Tied to the code by the counters in every L1 state dump and by the registry's per-name statistics after every L2 call. Concurrent part: in scheduled runs of real threads (incl. lookups of expired entries racing with each other and with stores) hits+misses at quiescence must equal the number of completed calls and hits the number of calls served from the cache; and (C15c) in the interleaving model the counters equal the number of counted lookups at every point of every schedule and are exact at quiescence, hits = lookups that returned a value (fetch_add atomicity is assumed).",
